@@ -8,8 +8,8 @@ BUILD = os.environ.get("VERIF_BUILD", os.path.join(ROOT, "build"))
 BIN = os.path.join(ROOT, "build", "bin")   # extracted model binaries do not depend on /repo
 TARGET = os.path.join(BUILD, "target")
 COQ = os.path.join(ROOT, "coq")
-EVID = os.path.join(ROOT, "evidence")
-REPLAYS = os.path.join(ROOT, "replays")
+EVID = os.environ.get("VERIF_EVID", os.path.join(ROOT, "evidence"))
+REPLAYS = os.environ.get("VERIF_REPLAYS", os.path.join(ROOT, "replays"))
 NPROC = os.cpu_count() or 4
 
 BASE_ENV = dict(os.environ)
